@@ -2,9 +2,11 @@ package net
 
 import (
 	"context"
+	"errors"
 	"fmt"
 	"net"
-	"sync"
+	"os"
+	"time"
 
 	"go.uber.org/atomic"
 )
@@ -16,13 +18,14 @@ type Conn struct {
 	connection       net.Conn
 	closed           atomic.Bool
 	handshakeContext func(ctx context.Context) error
-	lock             sync.Mutex
+	lock             chan struct{} // serializes writers; a channel, so that waiting for it ends with the writer's context
 }
 
 // NewConn creates connection over net.Conn.
 func NewConn(c net.Conn) *Conn {
 	connection := Conn{
 		connection: c,
+		lock:       make(chan struct{}, 1),
 	}
 
 	if v, ok := c.(interface {
@@ -78,8 +81,26 @@ func (c *Conn) WriteWithContext(ctx context.Context, data []byte) error {
 		return err
 	}
 	written := 0
-	c.lock.Lock()
-	defer c.lock.Unlock()
+	select {
+	case c.lock <- struct{}{}:
+	case <-ctx.Done():
+		return ctx.Err()
+	}
+	defer func() { <-c.lock }()
+	if ctx.Done() != nil {
+		// a write parked on a peer that does not read is woken when the context ends
+		woken := make(chan struct{})
+		stop := context.AfterFunc(ctx, func() {
+			defer close(woken)
+			_ = c.connection.SetWriteDeadline(time.Now())
+		})
+		defer func() {
+			if !stop() {
+				<-woken
+				_ = c.connection.SetWriteDeadline(time.Time{})
+			}
+		}()
+	}
 	for written < len(data) {
 		select {
 		case <-ctx.Done():
@@ -91,6 +112,13 @@ func (c *Conn) WriteWithContext(ctx context.Context, data []byte) error {
 		}
 		n, err := c.connection.Write(data[written:])
 		if err != nil {
+			if ctx.Err() != nil && errors.Is(err, os.ErrDeadlineExceeded) {
+				if written+n > 0 {
+					// a part of the data is on the wire: the stream cannot be used any more
+					_ = c.Close()
+				}
+				return ctx.Err()
+			}
 			return err
 		}
 		written += n
